@@ -97,8 +97,9 @@ struct SIMDVector<int32_t,simd_abi::avx512> {
 #endif
     }
 
-    FASTOR_INLINE int32_t operator[](FASTOR_INDEX i) const {return reinterpret_cast<const int32_t*>(&value)[i];}
-    FASTOR_INLINE int32_t operator()(FASTOR_INDEX i) const {return reinterpret_cast<const int32_t*>(&value)[i];}
+    // read lanes through a store: casting &value to int32_t* violates strict aliasing
+    FASTOR_INLINE int32_t operator[](FASTOR_INDEX i) const {int32_t tmp[Size]; _mm512_storeu_si512((void*)tmp, value); return tmp[i];}
+    FASTOR_INLINE int32_t operator()(FASTOR_INDEX i) const {int32_t tmp[Size]; _mm512_storeu_si512((void*)tmp, value); return tmp[i];}
 
     FASTOR_INLINE void set(int32_t num) {
         value = _mm512_set1_epi32(num);
@@ -449,8 +450,9 @@ struct SIMDVector<int32_t,simd_abi::avx> {
 #endif
     }
 
-    FASTOR_INLINE int32_t operator[](FASTOR_INDEX i) const {return reinterpret_cast<const int32_t*>(&value)[i];}
-    FASTOR_INLINE int32_t operator()(FASTOR_INDEX i) const {return reinterpret_cast<const int32_t*>(&value)[i];}
+    // read lanes through a store: casting &value to int32_t* violates strict aliasing
+    FASTOR_INLINE int32_t operator[](FASTOR_INDEX i) const {int32_t tmp[Size]; _mm256_storeu_si256((__m256i*)tmp, value); return tmp[i];}
+    FASTOR_INLINE int32_t operator()(FASTOR_INDEX i) const {int32_t tmp[Size]; _mm256_storeu_si256((__m256i*)tmp, value); return tmp[i];}
 
     FASTOR_INLINE void set(int32_t num) {
         value = _mm256_set1_epi32(num);
@@ -766,8 +768,9 @@ struct SIMDVector<int32_t,simd_abi::sse> {
 #endif
     }
 
-    FASTOR_INLINE int32_t operator[](FASTOR_INDEX i) const {return reinterpret_cast<const int32_t*>(&value)[i];}
-    FASTOR_INLINE int32_t operator()(FASTOR_INDEX i) const {return reinterpret_cast<const int32_t*>(&value)[i];}
+    // read lanes through a store: casting &value to int32_t* violates strict aliasing
+    FASTOR_INLINE int32_t operator[](FASTOR_INDEX i) const {int32_t tmp[Size]; _mm_storeu_si128((__m128i*)tmp, value); return tmp[i];}
+    FASTOR_INLINE int32_t operator()(FASTOR_INDEX i) const {int32_t tmp[Size]; _mm_storeu_si128((__m128i*)tmp, value); return tmp[i];}
 
     FASTOR_INLINE void set(int32_t num) {
         value = _mm_set1_epi32(num);
